@@ -21,6 +21,7 @@ VARIABLES h, start
 hvars == <<store, last, h, start>>
 
 HIds == IF IOEnv.NIDS = "1" THEN {"a"}
+        ELSE IF IOEnv.NIDS = "2" THEN {"a", "b"}
         ELSE IF Rich /\ IOEnv.TIER # "thorough" THEN {"a", "b"} ELSE {"a", "b", "c"}
 HContents == IF Rich THEN {"itfA1", "itfA2", "parB1", "parB2", "enuB", "itfC", "parU", "bad"}
              ELSE {"itf", "par", "enu", "bad"}
